@@ -258,7 +258,9 @@ def check(prop, tier, seed):
         handle_violation(rep, prop, cfg, exes, disabled, seed, tier, key, b, r)
     golden = None
     if prop == 'C07':
-        golden = check_golden(rep, seed, tier, thorough)
+        golden = check_golden(rep, seed, tier, thorough, 'C07', 0)
+    elif prop == 'C12':
+        golden = check_golden(rep, seed, tier, thorough, 'C12', 1)
 
     samples = []
     b0 = cfg['builds'][0][0]
@@ -298,7 +300,7 @@ def check(prop, tier, seed):
         exhaustive=False,
     )
     if golden is not None:
-        rep.coverage['golden_files'] = golden
+        rep.coverage['golden_files' if prop == 'C07' else 'golden_files_integer_readers'] = golden
     if sweep_info is not None:
         rep.coverage['systematic_sweep'] = sweep_info
     if big_info is not None:
@@ -363,7 +365,8 @@ def handle_violation(rep, prop, cfg, exes, disabled, seed, tier, key, b, r):
     rep.add_violation(key, (d3 or r.get('detail', ''))[:300], path)
 
 
-def check_golden(rep, seed, tier, thorough):
+def check_golden(rep, seed, tier, thorough, prop, ints):
+    # ints: 0 = pool readers of the golden files (C07); 1 = integer-storage readers only (C12)
     """Durable files written by the pinned revision, read by the current tree."""
     import hashlib
     import re
@@ -388,7 +391,7 @@ def check_golden(rep, seed, tier, thorough):
         exe, failed = build.build_world('golden', b, ['core', 'io'], thorough=thorough)
         if 'golden_int:twins' in failed:
             out['integer_readers_compile'] = False
-        p = subprocess.run([exe, '--verify', gdir, '--seed', str(seed), '--tier', tier], capture_output=True, text=True,
+        p = subprocess.run([exe, '--verify', gdir, '--seed', str(seed), '--tier', tier, '--ints', str(ints)], capture_output=True, text=True,
                            errors='replace')
         files = set()
         done = False
@@ -396,7 +399,7 @@ def check_golden(rep, seed, tier, thorough):
             m = re.match(r'GOLD (\S+) VIOL key=(\S+) :: (.*)', line)
             if m:
                 key = m.group(2)
-                path = checks.replay_path('C07', key)
+                path = checks.replay_path(prop, key)
                 with open(path, 'w') as f:
                     f.write('world golden\nfile %s\nbuild %s\nexpect %s\n# %s\n' % (m.group(1), b, key, m.group(3)))
                 rep.add_violation(key, '%s: %s' % (m.group(1), m.group(3)), path)
@@ -416,7 +419,7 @@ def check_golden(rep, seed, tier, thorough):
         if not done:
             cls, detail = run.classify_death(p.returncode, p.stderr, p.stdout.splitlines()[-20:])
             key = '%s:-:golden' % cls
-            path = checks.replay_path('C07', key)
+            path = checks.replay_path(prop, key)
             with open(path, 'w') as f:
                 f.write('world golden\nbuild %s\nexpect %s\n# %s\n' % (b, key, detail))
             rep.add_violation(key, 'golden verification died: ' + detail, path)
